@@ -373,7 +373,12 @@ def shrink(mod, case, still_fails):
     progress = True
     while progress and budget > 0:
         progress = False
-        for cand in mod.shrink_candidates(cur):
+        try:
+            cands = list(mod.shrink_candidates(cur))
+        except Exception:  # a bug in a shrinker must never hide the violation: keep what we have
+            traceback.print_exc(file=sys.stderr)
+            break
+        for cand in cands:
             budget -= 1
             if budget <= 0:
                 break
@@ -381,7 +386,7 @@ def shrink(mod, case, still_fails):
                 if still_fails(cand):
                     cur, progress = cand, True
                     break
-            except Infra:
+            except Exception:
                 continue
     return cur
 
@@ -543,6 +548,10 @@ def main(argv=None):
         rc = run_check(a.prop.upper(), a.tier, seed, a.replay)
     except Infra as e:
         print(f"INFRASTRUCTURE FAILURE ({a.prop}): {e}", file=sys.stderr)
+        sys.exit(2)
+    except Exception:  # a bug of the machinery itself: never a VIOLATION, never a silent pass
+        traceback.print_exc(file=sys.stderr)
+        print(f"INFRASTRUCTURE FAILURE ({a.prop}): unexpected exception in the harness", file=sys.stderr)
         sys.exit(2)
     sys.exit(rc)
 
